@@ -174,7 +174,8 @@ def step (σ : Option Bool → List Slot → List Slot) (b : QBeh) (c : QCfg) : 
     if v then some (nextFilter b c key (b.rewrite cur arg) rest below)
     else some { c with stack := .done :: below }
   | .prog (.ret _) :: .iter key arg rest :: below =>
-    some (nextListener b c key arg rest below)
+    if b.cont arg then some (nextListener b c key arg rest below)
+    else some { c with stack := .done :: below }
   | .prog (.ret v) :: .proc mode (s :: rest) kept idle .pred :: below =>
     (match mode, s.ev with
     | .ifp _, some e =>
